@@ -130,8 +130,25 @@ fn corrupt_address(name: &str, s: &str, all_doubles: bool, sampled: u64, r: &mut
             }
         }
     }
-    // hrp: every character replaced by every lower-case alphanumeric; all pairs for short hrps
-    let alnum: Vec<u8> = (b'a'..=b'z').chain(b'0'..=b'9').collect();
+    // hrp: every letter-case pattern of the hrp against an unchanged data part (mixed case must be refused) ...
+    for mask in 1u32..(1 << sep) {
+        let mut b = bytes.to_vec();
+        for i in 0..sep {
+            if mask & (1 << i) != 0 {
+                b[i] = if b[i].is_ascii_lowercase() { b[i].to_ascii_uppercase() } else { b[i].to_ascii_lowercase() };
+            }
+        }
+        if b == bytes {
+            continue;
+        }
+        let t = String::from_utf8(b).unwrap();
+        evals += 1;
+        if let Some(p) = parses(&t) {
+            bad.push((format!("C17/undetected/hrp-case/{}", name), t, p));
+        }
+    }
+    // ... and every character replaced by every printable ASCII character; all pairs as well
+    let alnum: Vec<u8> = (33u8..=126).collect();
     for i in 0..sep {
         for &c in &alnum {
             if c == bytes[i] {
@@ -285,6 +302,23 @@ fn corrupt_address_upper(name: &str, s: &str) -> (u64, Vec<(String, String, &'st
             if let Some(p) = parses(&t) {
                 bad.push((format!("C17/undetected/single-uppercase/{}", name), t, p));
             }
+        }
+    }
+    // every case pattern of the hrp against the unchanged upper-case data part
+    for mask in 1u32..(1 << sep) {
+        let mut b = bytes.to_vec();
+        for i in 0..sep {
+            if mask & (1 << i) != 0 && b[i].is_ascii_uppercase() {
+                b[i] = b[i].to_ascii_lowercase();
+            }
+        }
+        if b == bytes {
+            continue;
+        }
+        let t = String::from_utf8(b).unwrap();
+        evals += 1;
+        if let Some(p) = parses(&t) {
+            bad.push((format!("C17/undetected/hrp-case-uppercase/{}", name), t, p));
         }
     }
     (evals, bad)
